@@ -335,9 +335,12 @@ func runLifecycleScenario(sc *lcScenario, emitEv func(M)) {
 		return ""
 	}
 	_ = targetOf
-	rawQuery := ""
-	if sc.Cfg.ParamLen > 0 {
-		rawQuery = "k=" + strings.Repeat("a", sc.Cfg.ParamLen-2)
+	// every RTMP publisher has URL parameters of its own: length ParamLen + 7 * (len(id) - 2), as in the model
+	rawQueryOf := func(x string) string {
+		if sc.Cfg.ParamLen <= 0 {
+			return ""
+		}
+		return "k=" + x + strings.Repeat("a", sc.Cfg.ParamLen+7*(len(x)-2)-2-len(x))
 	}
 	names := map[string]string{} // lal unique key -> model id
 	var nmu sync.Mutex
@@ -505,7 +508,7 @@ func runLifecycleScenario(sc *lcScenario, emitEv func(M)) {
 			var err error
 			if kind == "rtmpPub" {
 				s.rtmp = rtmp.NewServerSession(nullObserver{}, s.conn)
-				s.rtmp.VerifSetIdentity("live", stream, rawQuery, true)
+				s.rtmp.VerifSetIdentity("live", stream, rawQueryOf(x), true)
 				s.key = s.rtmp.UniqueKey()
 				register(x, s)
 				err = sm.OnNewRtmpPubSession(s.rtmp)
